@@ -9,7 +9,6 @@ import (
 	"context"
 	"fmt"
 	"math/rand"
-	"strings"
 	"time"
 
 	"google.golang.org/grpc/codes"
@@ -18,6 +17,8 @@ import (
 )
 
 // phaseSpecs returns the "every phase" workload.
+var sloopPhase = true
+
 func phaseSpecs(fc bool) []*RPCSpec {
 	specs := []*RPCSpec{
 		// completed before the fault
@@ -45,6 +46,11 @@ func phaseSpecs(fc bool) []*RPCSpec {
 		// last, so that the other calls have reached their phases); only the end of the tunnel frees it
 		specs = append(specs, &RPCSpec{ID: "cloop", Method: "ServerStream", Client: []Op{{K: "open"}, {K: "send", N: 10}, {K: "close"}, {K: "sync", Name: "never"}, {K: "recvall"}},
 			Handler: []Op{{K: "recv"}, {K: "send", N: 100}, {K: "send", N: 200}, {K: "send", N: 300}, {K: "send", N: 400}, {K: "ctxwait"}, {K: "ret"}}})
+	}
+	if !fc && sloopPhase {
+		// the mirror image: requests the handler does not read park the SERVING side's receive loop
+		specs = append(specs, &RPCSpec{ID: "sloop", Method: "ClientStream", Client: []Op{{K: "open"}, {K: "send", N: 100}, {K: "send", N: 200}, {K: "send", N: 300}, {K: "send", N: 400}, {K: "sync", Name: "never"}, {K: "close"}, {K: "recvall"}},
+			Handler: []Op{{K: "ctxwait"}, {K: "recvall"}, {K: "ret"}}})
 	}
 	if fc {
 		specs = append(specs,
@@ -159,6 +165,11 @@ func famTermNested(w *World, c *Case, rng *rand.Rand) {
 	}
 	w.Advance(time.Hour)
 	w.Stat("termination_nested_runs", 1)
+	wedged := parkedRev0Loop() // (see famTermination)
+	if wedged != "" {
+		w.Stat("termination_with_parked_rev0_receive_loop", 1)
+		w.CollectSymptoms("C04", "tunnel-end-not-observed:"+cause+wedged)
+	}
 	select {
 	case <-tc.Done():
 	default:
@@ -169,6 +180,11 @@ func famTermNested(w *World, c *Case, rng *rand.Rand) {
 	} else if !clean && err == nil && !(cause == "outer-stop" && w.Cfg.Dir == "nested-rf") {
 		// (stopping the nested reverse server itself is a clean end of that tunnel)
 		w.Violate("C04", "err-nil-after-abnormal-end:"+cause, "nested %s, cause %s: the inner channel's Err() is nil although its carrier was torn down under it", w.Cfg.Dir, cause)
+	}
+	if wedged != "" {
+		for _, r := range w.Env.Log.OpenOps() {
+			w.Violate("C04", "op-hangs:"+r.Side+":"+r.K, "nested %s, cause %s: %s op %s[%d] of rpc %s still blocked an hour later", w.Cfg.Dir, cause, r.Side, r.K, r.Idx, r.RPC)
+		}
 	}
 	w.Env.Signal("never")
 	w.Advance(time.Second)
@@ -310,20 +326,20 @@ func famTermination(w *World, c *Case, rng *rand.Rand) {
 
 	// ---- lifecycle oracle ----
 	w.Stat("termination_runs", 1)
-	// Known finding D20 is keyed by what is observed, not by the configuration: the calling side's
-	// receive loop is, at this very moment, parked handing a frame to a revision-zero stream whose
-	// application does not read. Any other reason for the same symptoms keeps the plain key.
-	wedged := ""
-	for _, g := range BubbleGoroutines() {
-		if strings.Contains(g, "noFlowControlReceiver") && strings.Contains(g, ".accept(") && strings.Contains(g, ".recvLoop(") {
-			wedged = ":calling-side-receive-loop-parked-on-unread-rev0-stream"
-			w.Stat("termination_with_parked_rev0_receive_loop", 1)
-		}
+	// Known finding D20 is keyed by what is observed, not by the configuration: a receive loop is,
+	// at this very moment, parked handing a frame to a revision-zero stream whose application does
+	// not read, so the in-band end of the carrier cannot be observed behind it. Everything the
+	// lifecycle oracle finds in that state is one finding, recorded under one key per cause and
+	// parked side; any other reason for the same symptoms keeps the plain keys.
+	wedged := parkedRev0Loop()
+	if wedged != "" {
+		w.Stat("termination_with_parked_rev0_receive_loop", 1)
+		w.CollectSymptoms("C04", "tunnel-end-not-observed:"+cause+wedged)
 	}
 	select {
 	case <-tc.Done():
 	default:
-		w.Violate("C04", "done-not-closed:"+cause+wedged, "cause %s at frame %d: the channel's Done() is not closed an hour later", cause, k)
+		w.Violate("C04", "done-not-closed:"+cause, "cause %s at frame %d: the channel's Done() is not closed an hour later", cause, k)
 	}
 	err1 := tc.Err()
 	clean := cause == "close" || cause == "stop" || cause == "gracefulstop-then-stop"
@@ -336,7 +352,7 @@ func famTermination(w *World, c *Case, rng *rand.Rand) {
 	// serving call
 	sErr, sReturned := w.carrierServerResultFor()
 	if !sReturned {
-		w.Violate("C04", "serving-call-not-returned:"+cause+wedged, "cause %s at frame %d (%s): the serving call has not returned", cause, k, w.Cfg.Dir)
+		w.Violate("C04", "serving-call-not-returned:"+cause, "cause %s at frame %d (%s): the serving call has not returned", cause, k, w.Cfg.Dir)
 	} else {
 		// a nil result after a clean end is documented for ReverseTunnelServer.Serve only;
 		// the forward serving call is a gRPC handler whose status the property does not pin
@@ -351,23 +367,17 @@ func famTermination(w *World, c *Case, rng *rand.Rand) {
 		select {
 		case <-stopDone:
 		default:
-			w.Violate("C04", "stop-not-returned"+wedged, "Stop() has not returned an hour after it was called")
+			w.Violate("C04", "stop-not-returned", "Stop() has not returned an hour after it was called")
 		}
 	}
 	// Every library call that was blocked when the tunnel ended has returned by now - judged before
 	// the scripts' own waits are released, because a caller that starts reading again can free a
 	// parked receive loop and so finish what the end of the tunnel should have finished.
-	if wedged != "" {
-		if n := len(w.Env.Log.OpenOps()); n > 0 {
-			w.Violate("C04", "in-flight-ops-not-ended:"+cause+wedged, "cause %s at frame %d (%s): %d operation(s) still blocked an hour later", cause, k, w.Cfg, n)
-		}
-	} else {
-		for _, r := range w.Env.Log.OpenOps() {
-			if r.K == "ctxwait" {
-				w.Violate("C04", "handler-ctx-not-cancelled:"+cause, "cause %s at frame %d: handler %s context was not cancelled", cause, k, r.RPC)
-			} else {
-				w.Violate("C04", "op-hangs:"+r.Side+":"+r.K, "cause %s at frame %d (%s): %s op %s[%d] of rpc %s still blocked an hour later (before the scripts' own waits were released)", cause, k, w.Cfg, r.Side, r.K, r.Idx, r.RPC)
-			}
+	for _, r := range w.Env.Log.OpenOps() {
+		if r.K == "ctxwait" {
+			w.Violate("C04", "handler-ctx-not-cancelled:"+cause, "cause %s at frame %d: handler %s context was not cancelled", cause, k, r.RPC)
+		} else {
+			w.Violate("C04", "op-hangs:"+r.Side+":"+r.K, "cause %s at frame %d (%s): %s op %s[%d] of rpc %s still blocked an hour later (before the scripts' own waits were released)", cause, k, w.Cfg, r.Side, r.K, r.Idx, r.RPC)
 		}
 	}
 	// every operation returned; every RPC not completed before is non-OK
